@@ -13,7 +13,8 @@ if [ "$patch" != "-" ]; then (cd "$S/repo" && patch -p1 --no-backup-if-mismatch 
 engine=$(grep -E "^ +[C0-9|]*$prop[C0-9|]*\) engine=" /verif/check | sed -E 's/.*engine=([a-z]+).*/\1/' | head -1)
 sed "s#=> /repo#=> $S/repo#" /verif/harness/go.mod > "$S/go.mod"; cp /verif/harness/go.sum "$S/go.sum"
 cd /verif/harness
-go build -trimpath -modfile="$S/go.mod" -race -tags verif -o "$S/$engine" "./cmd/$engine" || { echo BUILD-FAILED; [ "${KEEP:-0}" = 1 ] || rm -rf "$S"; exit 2; }
+TP=-trimpath; [ "$engine" = injectmon ] && TP=   # the chart renderer locates files through source paths
+go build $TP -modfile="$S/go.mod" -race -tags verif -o "$S/$engine" "./cmd/$engine" || { echo BUILD-FAILED; [ "${KEEP:-0}" = 1 ] || rm -rf "$S"; exit 2; }
 VERIF_OUT="$S/out" VERIF_SEED="$seed" "$S/$engine" -prop "$prop" -tier "$tier" | tee "$S/out/stdout.txt" | grep -E "VIOLATION|^  key=|KNOWN-FINDING|HARNESS-ERROR|BROKEN-CHECK|evaluations=" | cut -c1-260 | head -24
 rc=${PIPESTATUS[0]}
 echo "mutant $name: exit=$rc"
